@@ -4,82 +4,82 @@ Each function returns nothing; it adds the ground instance to the context and lo
 
 def cos_diff(ctx, a, b):
     m = ctx.m
-    ctx.hint(ctx.eq(m.cos(a - b), m.cos(a) * m.cos(b) + m.sin(a) * m.sin(b)), "cos(a-b)=cos a cos b+sin a sin b")
+    return ctx.hint(ctx.eq(m.cos(a - b), m.cos(a) * m.cos(b) + m.sin(a) * m.sin(b)), "cos(a-b)=cos a cos b+sin a sin b")
 
 
 def sin_diff(ctx, a, b):
     m = ctx.m
-    ctx.hint(ctx.eq(m.sin(a - b), m.sin(a) * m.cos(b) - m.cos(a) * m.sin(b)), "sin(a-b)=sin a cos b-cos a sin b")
+    return ctx.hint(ctx.eq(m.sin(a - b), m.sin(a) * m.cos(b) - m.cos(a) * m.sin(b)), "sin(a-b)=sin a cos b-cos a sin b")
 
 
 def cos_sum(ctx, a, b):
     m = ctx.m
-    ctx.hint(ctx.eq(m.cos(a + b), m.cos(a) * m.cos(b) - m.sin(a) * m.sin(b)), "cos(a+b)=cos a cos b-sin a sin b")
+    return ctx.hint(ctx.eq(m.cos(a + b), m.cos(a) * m.cos(b) - m.sin(a) * m.sin(b)), "cos(a+b)=cos a cos b-sin a sin b")
 
 
 def sin_sum(ctx, a, b):
     m = ctx.m
-    ctx.hint(ctx.eq(m.sin(a + b), m.sin(a) * m.cos(b) + m.cos(a) * m.sin(b)), "sin(a+b)=sin a cos b+cos a sin b")
+    return ctx.hint(ctx.eq(m.sin(a + b), m.sin(a) * m.cos(b) + m.cos(a) * m.sin(b)), "sin(a+b)=sin a cos b+cos a sin b")
 
 
 def half_angle(ctx, x):
     """sin^2(x/2) = (1 - cos x)/2 ; cos^2(x/2) = (1 + cos x)/2"""
     m = ctx.m
-    ctx.hint(ctx.eq(m.sin(x / 2) * m.sin(x / 2), (1 - m.cos(x)) / 2), "sin^2(x/2)=(1-cos x)/2")
+    return ctx.hint(ctx.eq(m.sin(x / 2) * m.sin(x / 2), (1 - m.cos(x)) / 2), "sin^2(x/2)=(1-cos x)/2")
 
 
 def double_angle(ctx, x):
     m = ctx.m
     ctx.hint(ctx.eq(m.sin(2 * x), 2 * m.sin(x) * m.cos(x)), "sin 2x = 2 sin x cos x")
-    ctx.hint(ctx.eq(m.cos(2 * x), 1 - 2 * m.sin(x) * m.sin(x)), "cos 2x = 1 - 2 sin^2 x")
+    return ctx.hint(ctx.eq(m.cos(2 * x), 1 - 2 * m.sin(x) * m.sin(x)), "cos 2x = 1 - 2 sin^2 x")
 
 
 def period_shift(ctx, a, z):
     """cos/sin(a + 2 pi z) = cos/sin(a) for a concrete integer z"""
     m = ctx.m
     assert int(z) == z
-    ctx.hint(ctx.And(ctx.eq(m.cos(a + 2 * m.pi * z), m.cos(a)), ctx.eq(m.sin(a + 2 * m.pi * z), m.sin(a))),
+    return ctx.hint(ctx.And(ctx.eq(m.cos(a + 2 * m.pi * z), m.cos(a)), ctx.eq(m.sin(a + 2 * m.pi * z), m.sin(a))),
              "cos/sin(a+2 pi z)=cos/sin a, z integer")
 
 
 def exp_sum(ctx, a, b):
     m = ctx.m
-    ctx.hint(ctx.eq(m.exp(a + b), m.exp(a) * m.exp(b)), "exp(a+b)=exp a exp b")
+    return ctx.hint(ctx.eq(m.exp(a + b), m.exp(a) * m.exp(b)), "exp(a+b)=exp a exp b")
 
 
 def pow_def(ctx, x, a):
     """x**a = exp(a log x) for x > 0"""
     m = ctx.m
-    ctx.hint(ctx.Implies(ctx.gt(x, 0), ctx.eq(m.pow(x, a), m.exp(a * m.log(x)))), "x^a=exp(a log x), x>0")
+    return ctx.hint(ctx.Implies(ctx.gt(x, 0), ctx.eq(m.pow(x, a), m.exp(a * m.log(x)))), "x^a=exp(a log x), x>0")
 
 
 def pow_mul(ctx, x, a, b):
     m = ctx.m
-    ctx.hint(ctx.Implies(ctx.gt(x, 0), ctx.eq(m.pow(x, a) * m.pow(x, b), m.pow(x, a + b))), "x^a x^b=x^(a+b), x>0")
+    return ctx.hint(ctx.Implies(ctx.gt(x, 0), ctx.eq(m.pow(x, a) * m.pow(x, b), m.pow(x, a + b))), "x^a x^b=x^(a+b), x>0")
 
 
 def pow_pow(ctx, x, a, b):
     m = ctx.m
-    ctx.hint(ctx.Implies(ctx.gt(x, 0), ctx.eq(m.pow(m.pow(x, a), b), m.pow(x, a * b))), "(x^a)^b=x^(ab), x>0")
+    return ctx.hint(ctx.Implies(ctx.gt(x, 0), ctx.eq(m.pow(m.pow(x, a), b), m.pow(x, a * b))), "(x^a)^b=x^(ab), x>0")
 
 
 def pow_prod(ctx, x, y, a):
     m = ctx.m
-    ctx.hint(ctx.Implies(ctx.And(ctx.gt(x, 0), ctx.gt(y, 0)),
+    return ctx.hint(ctx.Implies(ctx.And(ctx.gt(x, 0), ctx.gt(y, 0)),
                          ctx.eq(m.pow(x * y, a), m.pow(x, a) * m.pow(y, a))), "(xy)^a=x^a y^a, x,y>0")
 
 
 def log_prod(ctx, x, y):
     m = ctx.m
-    ctx.hint(ctx.Implies(ctx.And(ctx.gt(x, 0), ctx.gt(y, 0)), ctx.eq(m.log(x * y), m.log(x) + m.log(y))),
+    return ctx.hint(ctx.Implies(ctx.And(ctx.gt(x, 0), ctx.gt(y, 0)), ctx.eq(m.log(x * y), m.log(x) + m.log(y))),
              "log(xy)=log x+log y, x,y>0")
 
 
 def log_pow(ctx, x, a):
     m = ctx.m
-    ctx.hint(ctx.Implies(ctx.gt(x, 0), ctx.eq(m.log(m.pow(x, a)), a * m.log(x))), "log(x^a)=a log x, x>0")
+    return ctx.hint(ctx.Implies(ctx.gt(x, 0), ctx.eq(m.log(m.pow(x, a)), a * m.log(x))), "log(x^a)=a log x, x>0")
 
 
 def sqrt_sq(ctx, x):
     m = ctx.m
-    ctx.hint(ctx.eq(m.sqrt(x * x), m.abs(x)), "sqrt(x^2)=|x|")
+    return ctx.hint(ctx.eq(m.sqrt(x * x), m.abs(x)), "sqrt(x^2)=|x|")
